@@ -80,6 +80,14 @@ def gen_cases(tier):
                 yield ('color', kind, v, sub, 3)
                 if kind != 'ppm':
                     yield ('color', kind, v, sub, 4)
+            # the same colour in different notations for different module types (5); semi-transparent colours next to a transparent type (6)
+            for r in (1, 2):
+                for sub in itertools.combinations(range(15), r):
+                    if r == 2 and (sub[0] + sub[1]) % 3:
+                        continue
+                    yield ('color', kind, v, sub, 5)
+                    if kind != 'ppm' and r == 1:
+                        yield ('color', kind, v, sub, 6)
             if kind == 'png' and v in ('M4', 7):
                 # transparent light modules + 2..4 further colours: palettes of 4, 5 and 6 entries incl. the transparent one
                 for r in (2, 3, 4):
@@ -232,6 +240,21 @@ def do_color(fmt, v, sub, variant, acc):
         if fmt == 'svg':
             light = '#eee'
             kw['light'] = light
+    if variant == 5:
+        dark, light = ('#000', '#fff') if len(sub) == 1 else ('blue', 'yellow')
+        kw = {'dark': dark, 'light': light}
+        for k, i in enumerate(sub):
+            o = OPTS[i]
+            isdark = o.endswith('_dark') or o == 'dark_module'
+            if len(sub) == 1:
+                kw[o] = ('black', (0, 0, 0))[i % 2] if isdark else ('white', '#FFFFFF')[i % 2]
+            else:
+                kw[o] = ('#00f', (0, 0, 255))[k] if isdark else ('#ff0', (255, 255, 0))[k]
+    if variant == 6:
+        dark, light = '#0000ff80', None
+        kw = {'dark': dark, 'light': light}
+        for i in sub:
+            kw[OPTS[i]] = '#ff000040'
     if variant == 2:
         # transparent light modules + the first CSS colour as dark colour (the PNG writer's stand-in for "transparent")
         dark, light = 'aliceblue', None
